@@ -63,13 +63,14 @@ func main() {
 	}
 
 	if !r.Thorough() {
-		plan.CorpusTraceDirs = []string{"defer", "errors", "flow", "functions"}
+		plan.CorpusDirs = pdiff.CoreCorpusDirs
+		plan.CorpusTraceDirs = []string{"cast", "defer", "errors"}
 		// The file-bound variants differ from their console twins only in
 		// where the report goes: quick runs them in dynamic mode only.
 		plan.DiagModes = map[string][]string{"profile-file": {"dynamic"}, "trace-logfile": {"dynamic"}}
 	}
 
-	r.Rule(fmt.Sprintf("programs: the C02 program set (every statement form over every numeric type plus the Ego-specific families%s); each program x {--profile, --profile-file, --trace, --trace --log-file, --debug fed `continue`} x %d type modes (quick: the two file-bound variants in dynamic mode only) x %d setting groups against the plain run of the same group; plus every test block of tests/**.ego under `ego test --trace` and `ego test --debug`. distinct = (mode, program) that produces output or an error when run plainly, and (mode, corpus test block) stable in two plain runs",
+	r.Rule(fmt.Sprintf("programs: the C02 program set (every statement form over every numeric type plus the Ego-specific families%s); each program x {--profile, --profile-file, --trace, --trace --log-file, --debug fed `continue`} x %d type modes (quick: the two file-bound variants in dynamic mode only) x %d setting groups against the plain run of the same group; plus every test block of the tests/**.ego corpus under `ego test --debug` (quick: the 13 language-core directories) and `ego test --trace` (quick: cast, defer, errors; tracing a directory costs about 30 times its plain run). distinct = (mode, program) that produces output or an error when run plainly, and (mode, corpus test block) stable in two plain runs",
 		map[bool]string{false: "", true: ", and every ordered pair of statement forms"}[r.Thorough()], len(modes), len(groups)))
 	r.Assume("program output is recognised by the OUT| prefix every generated program puts on every line it prints (diagnostics share stdout with the program); for the corpus only status and error lines are compared",
 		"the batch worker repeats ego's main() in one process per mode; every disagreement is re-run in fresh `ego run` processes (twice per side) before it is reported",
